@@ -176,6 +176,57 @@ fn expected_vector(dom: &ODom, node: odom::Id, sheet: &[(String, (u8, u8, u8))],
     (v, in_pre)
 }
 
+/// Visible characters (node, k-th visible T-character of that node) that are
+/// the very first character of a source line of a <pre> (directly after a
+/// newline / <br> / the start of the block, no leading whitespace): these are
+/// always in the first piece of their line, so they can never carry
+/// Preformat(true).
+fn pre_line_starts(dom: &ODom) -> std::collections::HashSet<(odom::Id, usize)> {
+    let mut set = std::collections::HashSet::new();
+    for (id, n) in dom.nodes.iter().enumerate() {
+        if !matches!(&n.kind, Kind::Element { name, html: true, .. } if name == "pre") || !dom.attached(id) {
+            continue;
+        }
+        // nested pre inside pre: handled by the outer one as well; harmless
+        let mut at_start = true;
+        let mut stack: Vec<odom::Id> = dom.children(id).iter().rev().cloned().collect();
+        while let Some(x) = stack.pop() {
+            match dom.kind(x) {
+                Kind::Text(t) => {
+                    let mut k = 0usize;
+                    for c in t.chars() {
+                        if c == '\n' {
+                            at_start = true;
+                            continue;
+                        }
+                        if odom::is_visible_char(c) && in_t(c) {
+                            if at_start {
+                                set.insert((x, k));
+                            }
+                            k += 1;
+                            at_start = false;
+                        } else if c.is_whitespace() || odom::is_visible_char(c) {
+                            at_start = false;
+                        }
+                    }
+                }
+                Kind::Element { name, .. } => {
+                    if name == "br" {
+                        at_start = true;
+                    } else if name == "img" {
+                        at_start = false;
+                    }
+                    for &c in dom.children(x).iter().rev() {
+                        stack.push(c);
+                    }
+                }
+                _ => {}
+            }
+        }
+    }
+    set
+}
+
 fn strip_pre(tags: &[Ann]) -> (Vec<Ann>, Option<bool>) {
     let mut pf = None;
     let mut v = Vec::new();
@@ -248,6 +299,7 @@ fn run_case(seed: u64, idx: u64, _tier: Tier, out: &mut CaseOut) {
         .filter(|v| in_t(v.c))
         .collect();
     let has_table = dom.has_element("table");
+    let line_starts = pre_line_starts(&dom);
     for _ in 0..2 {
         let w = pick_width(&mut rng, 100);
         let l = render_lines(&cfg, &input, w);
@@ -278,6 +330,7 @@ fn run_case(seed: u64, idx: u64, _tier: Tier, out: &mut CaseOut) {
         let sequential = !has_table || cfg.raw;
         let mut cursor = 0usize;
         let mut prev_node = None;
+        let mut k_in_node: std::collections::HashMap<odom::Id, usize> = std::collections::HashMap::new();
         let mut split_tokens = 0u64;
         // per line: vectors of token pieces (for the non-token piece rule)
         let mut line_tok_vecs: Vec<Vec<Vec<Ann>>> = vec![Vec::new(); lines.len()];
@@ -342,6 +395,25 @@ fn run_case(seed: u64, idx: u64, _tier: Tier, out: &mut CaseOut) {
                             witness(&input, w, &cfg, json!({"line": format!("{:?}", line)})),
                         );
                         return;
+                    }
+                    let k = {
+                        let e = k_in_node.entry(v.node).or_insert(0);
+                        let k = *e;
+                        *e += 1;
+                        k
+                    };
+                    // (with do_decorate a '*' / '**' / '`' precedes the element's text,
+                    // so the text's first character need not be in the first piece)
+                    if pf == Some(true) && !cfg.decorate_on() && line_starts.contains(&(v.node, k)) {
+                        out.violate(
+                            "preformat-continuation-flag-on-line-start",
+                            format!("character {:?} is the first character of a <pre> source line but is tagged Preformat(true) (continuation)", c),
+                            witness(&input, w, &cfg, json!({"line": format!("{:?}", line)})),
+                        );
+                        return;
+                    }
+                    if in_pre {
+                        out.inc("pre_chars_checked");
                     }
                     if in_pre != pf.is_some() {
                         out.violate(
